@@ -49,12 +49,18 @@ EXPLANATION = (
     "trx_data_rx_cb() is evaluated with and without a model of the calls it makes before the delivery (each resolved "
     "through the direct-call graph of trxcon's translation units; a chain that re-enters the TRXD transmit path of "
     "trx_if.c is evaluated there on the same transceiver instance with an uplink burst due) and what is handed on "
-    "must not differ - a PDU buffer shared by both directions plus a transmission triggered before the delivery does.")
+    "must not differ - a PDU buffer shared by both directions plus a transmission triggered before the delivery does. "
+    "A sixth group (C04.R7) decides that the delivery does not depend on what the TRXC state machine is doing: every "
+    "read of the FSM instance's state on the receive path is an input of the evaluation, folded over all enumerators "
+    "of the FSM's state enum (values as clang folded them from trx_if.h); a well-formed datagram must be delivered "
+    "with the reference values in every state but the one an instance starts in, and C04.R2/R6 are evaluated in "
+    "each state in which the path is open.")
 ASSUMPTIONS = [
     "osmo_load32be/16be(p), osmo_store32be/16be(v, p): big-endian load/store at p; memcpy/memmove/memset as in ISO C; read/recv/recvfrom deliver min(datagram length, capacity) octets; send/sendto/write emit the given octets",
     "external functions without a body in trx_if.c (logging, strerror_r, the rts indication) do not modify the local buffer or the burst indication, except through a chain of direct calls back into trx_if.c's transmit path, which C04.R6 follows and evaluates",
     "C04.R6: the RTS.ind of a transceiver instance is served by the trxcon instance that transmits on that same transceiver instance (trxcon->phyif / trx->priv as linked in trxcon_main.c); an uplink burst is assumed due for the frame",
     "a branch whose condition does not depend on the datagram (trx state) is skipped only if neither arm can touch local objects (no jump, stores only into objects reached through struct pointers / file-scope variables)",
+    "C04.R7: the state of the transceiver's FSM instance takes the values of the enumerators of the enum whose enumerators trx_if.c passes to osmo_fsm_inst_state_chg() (below the num_states of its struct osmo_fsm); an instance starts in state 0 (osmo_fsm_inst_alloc) and no burst is due before the first TRXC command has left that state; it does not change while trx_data_rx_cb() runs unless the callback stores it itself",
     "the families are exhaustive per octet / per axis, not over the product of all axes; independence of the axes is what the structural proofs show when closed",
 ]
 F = rel("data_msg")
@@ -288,6 +294,78 @@ def _init_elems(tu, il):
 
 def _isptr(v):
     return type(v) is tuple and v[0] == "ptr"
+
+
+def _owner(tu, member_expr):
+    d = tu.by_id.get(member_expr.get("referencedMemberDecl"))
+    p_ = tu.parent.get(id(d)) if d is not None else None
+    return d, (p_ if kind(p_ or {}) == "RecordDecl" else None)
+
+
+def _fsm_state_read(tu, n):
+    """MemberExpr that reads `state` of a struct osmo_fsm_inst (resolved member declaration, not the spelling of the
+    access path).  Where the instance is itself taken from a member (`x->fi->state`), the record holding it must be the
+    one that owns the sockets (a member of type struct osmo_fd): the transceiver instance the datagram callback is
+    registered for - the FSM instance of some other object is not folded."""
+    d, rec = _owner(tu, n)
+    if d is None or rec is None or d.get("name") != "state" or rec.get("name") != "osmo_fsm_inst":
+        return False
+    b = strip(kids(n)[0]) if kids(n) else None
+    while b is not None and kind(b) in ("ParenExpr", "ImplicitCastExpr", "CStyleCastExpr") and kids(b):
+        b = kids(b)[0]
+    if b is not None and kind(b) == "MemberExpr":
+        _, brec = _owner(tu, b)
+        if brec is None:
+            return False
+        return any(_clean(_qt(c)) == "struct osmo_fd" for c in kids(brec) if kind(c) == "FieldDecl")
+    return True
+
+
+def _fsm_domain(tu):
+    """the states of the FSM this translation unit defines: the enumerators (values as clang folded them from the header)
+    of the one enum whose enumerators are passed as new state to osmo_fsm_inst_state_chg(), restricted to the
+    `num_states` of the unit's struct osmo_fsm definition (a trailing counter enumerator is not a state).  An instance
+    starts in state 0 (osmo_fsm_inst_alloc)."""
+    if getattr(tu, "_c04_fsm", None) is not None:
+        return tu._c04_fsm
+    enums = {}
+    for fn_ in tu.functions.values():
+        for c in walk(fn_):
+            if kind(c) != "CallExpr" or len(kids(c)) < 3:
+                continue
+            cal = strip(kids(c)[0])
+            if not (cal.get("referencedDecl") or {}).get("name", "").endswith("osmo_fsm_inst_state_chg"):
+                continue
+            for y in walk(kids(c)[2]):
+                rd = y.get("referencedDecl") or {}
+                if kind(y) == "DeclRefExpr" and rd.get("kind") == "EnumConstantDecl":
+                    ed = tu.parent.get(id(tu.by_id.get(rd.get("id")) or {}))
+                    if kind(ed or {}) == "EnumDecl":
+                        enums[id(ed)] = ed
+    if len(enums) != 1:
+        raise AnalysisError("trx_if.c: the state enum of the transceiver FSM is not determined (%d enums named in osmo_fsm_inst_state_chg calls)" % len(enums))
+    ed = list(enums.values())[0]
+    n_states = None
+    fsms = [v for v in tu.vars.values() if _clean(_qt(v)) == "struct osmo_fsm" and kids(v) and kind(strip(kids(v)[-1])) == "InitListExpr"]
+    if len(fsms) == 1:
+        try:
+            iv = tu.init_value(strip(kids(fsms[0])[-1]))
+            i = [nm for nm, _ in tu.record_fields("osmo_fsm")].index("num_states")
+            if isinstance(iv, list) and isinstance(iv[i], int):
+                n_states = iv[i]
+        except (AnalysisError, ValueError, IndexError):
+            pass
+    by_val = {}
+    for c in kids(ed):
+        if kind(c) == "EnumConstantDecl" and isinstance(tu.enums.get(c.get("name")), int):
+            v = tu.enums[c.get("name")]
+            if v >= 0 and (n_states is None or v < n_states):
+                by_val.setdefault(v, []).append(c.get("name"))
+    if len(by_val) < 2 or 0 not in by_val:
+        raise AnalysisError("trx_if.c: enum %s does not give the transceiver FSM an initial state 0 and at least one more state" % ed.get("name"))
+    tu._c04_fsm = {"enum": ed.get("name") or "<anonymous>", "decl": kids(ed)[0], "num_states": n_states,
+                   "states": [(v, "/".join(by_val[v])) for v in sorted(by_val)]}
+    return tu._c04_fsm
 
 
 class _Goto(Exception):
@@ -572,6 +650,27 @@ class CMach:
             return self.load(st, l_[1], w, size)
         return g
 
+    def _ambient(self, n):
+        """read of the state of the transceiver's FSM instance: not part of the datagram and not written by the function
+        under evaluation - the value is the one the caller folds over (st.out["fsm_state"]); a value the evaluated code
+        stored itself wins.  Every such read is recorded with the expression it stands in (st.out["fsm_sites"])."""
+        g = self._getter(n)
+        top = n
+        while True:
+            p_ = self.tu.parent.get(id(top))
+            if p_ is None or not (kind(p_).endswith("Expr") or kind(p_).endswith("Operator")) or kind(p_) == "CallExpr":
+                break
+            top = p_
+        site = (ctext(top)[:100], self.tu.line(n))
+
+        def ga(st):
+            v = g(st)
+            if v is None:
+                st.out.setdefault("fsm_sites", set()).add(site)
+                v = st.out.get("fsm_state")
+            return v
+        return ga
+
     def _lvalue(self, n):
         """(locate(st) -> l, read(st, l) -> value, write(st, l, v) -> value stored): an lvalue is located exactly once
         per evaluation (its sub-expressions may have side effects: `*p++ = x`, `burst[k++] = s`)"""
@@ -655,6 +754,8 @@ class CMach:
         if k == "MemberExpr":
             if self._is_array(n):
                 return self._decay(n)
+            if _fsm_state_read(self.tu, n):
+                return self._ambient(n)
             return self._getter(n)
         if k == "ArraySubscriptExpr":
             return self._getter(n)
@@ -1325,18 +1426,8 @@ def _tx_hooks():
             "send": h_send(1, 2), "sendto": h_send(1, 2), "write": h_send(1, 2)}
 
 
-def trxcon_rx_semantic(L, repo, spec, us2s, tier, tu):
-    """trx_data_rx_cb evaluated on datagram families; every result is compared with the reference decoding
-    (spec/trxd.json + the toolkit's usbit2sbit table)"""
-    FC = tu.rel
-    f = tu.func("trx_data_rx_cb")
-    L.fn(FC, "trx_data_rx_cb")
-    flds = tu.record_fields("trxcon_phyif_burst_ind")
-    names = [nm for nm, _ in flds]
-    if not {"tn", "fn", "rssi", "toa256", "burst", "burst_len"} <= set(names):
-        raise AnalysisError("struct trxcon_phyif_burst_ind: anchor members tn/fn/rssi/toa256/burst/burst_len not found")
-    M = CMach(tu, _rx_hooks(names, dict(flds)))
-    M.watch = ("trxcon_phyif_burst_ind",)
+def _rx_model(spec, us2s):
+    """reference decoding of a TRXDv0 Rx datagram (spec/trxd.json + the toolkit's usbit2sbit table) and a datagram builder"""
     sp = spec["Rx"]["0"]
     hl, pad = sp["hdr_len"], sp["burst"]["legacy_pad"]
     bits0 = {nm: (sh, w) for nm, sh, w in bits_layout(spec["hdr_common"][0]["fields"], 1) if nm}
@@ -1375,6 +1466,23 @@ def trxcon_rx_semantic(L, repo, spec, us2s, tier, tu):
         else:
             d += [pay(i) for i in range(bl)] + ([0] * pad if padded else [])
         return d
+    return sp, hl, pad, want, ref, mk
+
+
+def trxcon_rx_semantic(L, repo, spec, us2s, tier, tu, fsm=None):
+    """trx_data_rx_cb evaluated on datagram families; every result is compared with the reference decoding
+    (spec/trxd.json + the toolkit's usbit2sbit table)"""
+    FC = tu.rel
+    f = tu.func("trx_data_rx_cb")
+    L.fn(FC, "trx_data_rx_cb")
+    flds = tu.record_fields("trxcon_phyif_burst_ind")
+    names = [nm for nm, _ in flds]
+    if not {"tn", "fn", "rssi", "toa256", "burst", "burst_len"} <= set(names):
+        raise AnalysisError("struct trxcon_phyif_burst_ind: anchor members tn/fn/rssi/toa256/burst/burst_len not found")
+    M = CMach(tu, _rx_hooks(names, dict(flds)))
+    M.watch = ("trxcon_phyif_burst_ind",)
+    sp, hl, pad, want, ref, mk = _rx_model(spec, us2s)
+    H = H_FRAMES
     rmin, rmax = 47, 120
     try:
         rci = repo.need_class("data_msg", "RxMsg")
@@ -1389,12 +1497,22 @@ def trxcon_rx_semantic(L, repo, spec, us2s, tier, tu):
     info = {}
 
     def one(tag, d):
-        st = CState()
-        st.out["dgram"] = d
-        try:
-            M.run(f, st)
-        except CDone:
-            pass
+        # the decoding must not depend on what the TRXC state machine is doing: a run that read the FSM state is repeated
+        # in every state in which C04.R7 found the burst path open
+        r = None
+        for sv, sname in (fsm or [(None, None)]):
+            st = CState()
+            st.out["dgram"], st.out["fsm_state"] = d, sv
+            try:
+                M.run(f, st)
+            except CDone:
+                pass
+            r = _judge(tag, d, st, (lambda d_, n=12, t=sname: "%s [FSM state %s]" % (_hex(d_, n), t)) if sname else _hex)
+            if not st.out.get("fsm_sites"):
+                break
+        return r
+
+    def _judge(tag, d, st, _hex):
         cnt["runs"] += 1
         if "cap" in st.out:
             info.setdefault("caps", set()).add(st.out["cap"])
@@ -1702,7 +1820,7 @@ def _mem_name(base):
     return b
 
 
-def r6_burst_storage(L, repo, spec, tier, tu):
+def r6_burst_storage(L, repo, spec, tier, tu, fsm=None):
     """C04.R6 -- decides a necessary condition of the clause `every version-0 burst the toolkit sends towards L1 is
     decoded by trxcon to the same ... soft bits` at its observation point (the trxcon_phyif_burst_ind handed to the
     scheduler): the object the indication's `burst` member points into still holds the soft bits converted from the
@@ -1819,7 +1937,7 @@ def r6_burst_storage(L, repo, spec, tier, tu):
     M.watch = ("trxcon_phyif_burst_ind", "trxcon_phyif_burst_req")
     M.ext = ext
 
-    def run(j, d, model):
+    def run(j, d, model, sv=None):
         st = CState()
         frame = {}
         inst = ("ref", "(%s)" % inst_t[:-1].strip(), frame) if inst_t else None
@@ -1827,7 +1945,7 @@ def r6_burst_storage(L, repo, spec, tier, tu):
         if inst is not None:
             frame["@ofd.data"] = inst
             args[ofd[0].get("name")] = ("ref", "@ofd", frame)
-        st.out.update({"dgram": d, "model": model, "j": j, "inst": inst})
+        st.out.update({"dgram": d, "model": model, "j": j, "inst": inst, "fsm_state": sv})
         try:
             M.run(f, st, args)
         except CDone:
@@ -1855,11 +1973,11 @@ def r6_burst_storage(L, repo, spec, tier, tu):
         d += [(i * 7 + 3 + 19 * j) & 0xff for i in range(bl)] + ([0] * pad if j & 1 else [])
         fam.append(d)
     bad, delivered, reent = [], 0, 0
-    for j, d in enumerate(fam):
-        plain, _, _ = run(j, d, False)
+    for j, d, sv in [(j, d, sv) for j, d in enumerate(fam) for sv, _ in (fsm or [(None, None)])]:
+        plain, _, _ = run(j, d, False, sv)
         if plain is not None:
             delivered += 1
-        mod, re_, failed = run(j, d, True)
+        mod, re_, failed = run(j, d, True, sv)
         if failed and mod is not None and not (_isptr(mod[2]) and callback_local(mod[2][1])):
             x, g, err = failed[0]
             raise AnalysisError("trx_data_rx_cb: %s() is reached from the call of %s() made before the burst indication is delivered, the indication's `burst` points into `%s`, and %s() cannot be evaluated there (%s)" % (
@@ -1903,6 +2021,99 @@ def r6_burst_storage(L, repo, spec, tier, tu):
 # ---------------------------------------------------------------------------------------------
 def _s16(v):
     return v - 65536 if v >= 32768 else v
+
+
+def r7_state_gate(L, repo, spec, us2s, tier, tu):
+    """C04.R7 -- decides a necessary condition of the clause `every version-0 burst the toolkit sends towards L1 is decoded
+    by trxcon to the same frame, timeslot, RSSI, ToA and soft bits`: the clause has no exception for what the TRXC state
+    machine is doing when the datagram arrives, so trx_data_rx_cb() must hand a well-formed TRXDv0 burst datagram to
+    trxcon_phyif_handle_burst_ind() in every state of the transceiver FSM in which the DATA socket is open and a burst can
+    arrive: every state but the one an instance starts in (value 0, left with the first TRXC command; nothing has been
+    powered on before it), the state `a command is pending` in particular.  Every read of the FSM instance's `state`
+    (resolved member declaration of struct osmo_fsm_inst, through aliases, helpers, switch or comparison alike) is an
+    input of the evaluation next to the datagram: trx_data_rx_cb() is evaluated (closure compiler over the clang AST) on
+    well-formed datagrams of every legal length once per enumerator of the state enum, with the enumerator values clang
+    folded from the header - not with literals, and not by looking at the operator or the enumerator named in the gate.
+    A state in which the datagram is not delivered, or is delivered with other values than the reference decoding, is a
+    violation naming the expressions that read the state.  A gate that only closes the initial state, a state read that
+    decides nothing (log line), a reordered enum with an order-independent gate are silent."""
+    R, FC, fn_ = "C04.R7", tu.rel, "trx_data_rx_cb"
+    f = tu.func(fn_)
+    L.fn(FC, fn_)
+    flds = tu.record_fields("trxcon_phyif_burst_ind")
+    names = [nm for nm, _ in flds]
+    if not {"tn", "fn", "rssi", "toa256", "burst", "burst_len"} <= set(names):
+        raise AnalysisError("struct trxcon_phyif_burst_ind: anchor members tn/fn/rssi/toa256/burst/burst_len not found")
+    M = CMach(tu, _rx_hooks(names, dict(flds)))
+    M.watch = ("trxcon_phyif_burst_ind",)
+    sp, hl, pad, want, ref, mk = _rx_model(spec, us2s)
+    fam = []
+    for j, ln in enumerate(sorted(want) * 3):
+        fam.append(mk(o0=j & 7, fn=(j * 170003 + 11) % H_FRAMES, rssi=60 + j, toa=(j * 29 & 0xff, (j * 37 + 11) & 0xff), ln=ln,
+                      pay=lambda i, j=j: (i * 7 + 3 + 19 * j) & 0xff))
+    dom, derr = None, None
+    try:
+        dom = _fsm_domain(tu)
+    except AnalysisError as e:
+        derr = e
+    sites, res, runs = set(), {}, 0
+    for d in fam:
+        for sv, sname in (dom["states"] if dom else [(None, None)]):
+            st = CState()
+            st.out["dgram"], st.out["fsm_state"] = d, sv
+            try:
+                M.run(f, st)
+            except CDone:
+                pass
+            except AnalysisError:
+                if derr is not None and st.out.get("fsm_sites"):
+                    raise derr
+                raise
+            runs += 1
+            read = st.out.get("fsm_sites") or set()
+            if not read:
+                break           # this datagram's path does not read the state: the same in every state, judged by C04.R2
+            if derr is not None:
+                raise derr
+            sites |= read
+            got, exp = st.out.get("ind"), ref(d)
+            oob = sorted(x for x in st.faults if x[0] == "oob" or got is not None)
+            if got is None:
+                r = "not delivered"
+            elif oob:
+                r = "delivered with %s" % (oob[:2],)
+            else:
+                snap, soft = got
+                diff = {k: (snap.get(k), exp[k]) for k in ("tn", "fn", "rssi", "toa256", "burst_len") if snap.get(k) != exp[k]}
+                if soft != exp["soft"]:
+                    diff["soft bits"] = "differ"
+                r = "delivered with %s (handed on, reference)" % diff if diff else None
+            if r is not None:
+                res.setdefault((sv, sname), (r, _hex(d)))
+    line = tu.line(f)
+    L.floor(R, "well-formed TRXDv0 datagrams evaluated through trx_data_rx_cb", runs, 1)
+    where = sorted("`%s` (line %d)" % x for x in sites)
+    if dom is None or not sites:
+        bad0 = [(n_, r) for (v, n_), r in res.items()]
+        L.ob(R, FC, fn_, "the delivery of a well-formed TRXDv0 burst datagram does not depend on the state of the transceiver FSM, or it is made in every state in which the DATA socket is open",
+             "delivered, reference values", bad0[:2] or "delivered, reference values; no read of the FSM state on the path", not bad0, line)
+        L.extra["c04_r7"] = {"state_reads": [], "runs": runs}
+        return None
+    L.floor(R, "states of the transceiver FSM folded (enumerators of enum %s)" % dom["enum"], len(dom["states"]), 2)
+    hdr = _decl_file(tu, L, dom["decl"])
+    need = [(v, n_) for v, n_ in dom["states"] if v != 0]
+    closed = [(v, n_) for v, n_ in need if (v, n_) in res and res[(v, n_)][0] == "not delivered"]
+    wrong = [(n_, r) for (v, n_), r in sorted(res.items()) if r[0] != "not delivered"]
+    L.ob(R, FC, fn_, "the delivery of a well-formed TRXDv0 burst datagram does not depend on the state of the transceiver FSM, or it is made in every state in which the DATA socket is open",
+         "delivered in %s" % ", ".join("%s = %d" % (n_, v) for v, n_ in need),
+         "not delivered in %s (enum %s as declared in %s; datagram %s); the state is read in %s" % (
+             ", ".join("%s = %d" % (n_, v) for v, n_ in closed), dom["enum"], hdr, res[closed[0]][1], ", ".join(where))
+         if closed else "delivered in all of them", not closed, line)
+    L.ob(R, FC, fn_, "a burst datagram delivered in some state of the transceiver FSM is delivered with the reference values (frame, timeslot, RSSI, ToA256, burst length, soft bits)",
+         [], ["%s: %s, datagram %s; the state is read in %s" % (n_, r[0], r[1], ", ".join(where)) for n_, r in wrong][:2], not wrong, line)
+    L.extra["c04_r7"] = {"enum": dom["enum"], "states": dom["states"], "state_reads": where, "runs": runs,
+                         "not_delivered_in": [n_ for _, n_ in closed]}
+    return [(v, n_) for v, n_ in need if (v, n_) not in closed] or None
 
 
 def ref_encode(spec, key, ver, m, legacy=False):
@@ -2664,14 +2875,16 @@ def r1_python(L, repo, spec, tier):
 def r2_r3_trxcon(L, repo, spec, us2s, tier):
     tu = TU(L.repo, "trxcon", "src/trx_if.c", L=L)
     M0 = CMach(tu)
+    # the FSM states in which the burst path is open (None: the receive path does not read the state)
+    fsm = L.stage(r7_state_gate, L, repo, spec, us2s, tier, tu)
     L.stage(_group, L, "C04.R2", tu.rel, "C04.R2 trxcon receive path: field <- octet expressions, guards, soft-bit loop folded over 256 values, FN guard",
-            lambda: trxcon_rx_semantic(L, repo, spec, us2s, tier, tu),
+            lambda: trxcon_rx_semantic(L, repo, spec, us2s, tier, tu, fsm),
             lambda: trxcon_rx_structural(L, repo, spec, us2s, tu, M0))
     L.stage(_group, L, "C04.R3", tu.rel, "C04.R3 trxcon transmit path: stores, big-endian FN, memcpy offset, length, send",
             lambda: trxcon_tx_semantic(L, repo, spec, tier, tu),
             lambda: trxcon_tx_structural(L, spec, tu))
     L.stage(r4_python_recv, L, repo, spec)
-    L.stage(r6_burst_storage, L, repo, spec, tier, tu)
+    L.stage(r6_burst_storage, L, repo, spec, tier, tu, fsm)
 
 
 def run(L, tier):
